@@ -544,6 +544,10 @@ async fn s_facts(c: Arc<Certs>) -> Out {
     out.fact("read_chunk after the peer's reset(0x10c) -> Reset(0x10c)", matches!(&last, Err(quinn::ReadError::Reset(c)) if c.into_inner() == 0x10c), format!("{last:?}"));
     let again = r3.read_chunk(usize::MAX, true).await;
     out.fact("read_chunk once more after it reported Reset -> Ok(None) (quinn forgets the reset)", matches!(&again, Ok(None)), format!("{again:?}"));
+    let st = r3.stop(VarInt::from_u32(9));
+    out.fact("stop() after the read reported Reset -> Err(ClosedStream)", st.is_err(), format!("{st:?}"));
+    let st = r2.stop(VarInt::from_u32(9));
+    out.fact("stop() after the read reported FIN -> Err(ClosedStream)", st.is_err(), format!("{st:?}"));
     // (6) after the peer's close(code), accept/open/read report ApplicationClosed(code)
     p.server.close(VarInt::from_u32(0x101), b"x");
     tokio::time::sleep(Duration::from_millis(50)).await;
